@@ -16,7 +16,7 @@ Here is a semantic property the library is supposed to satisfy:
 Your task: produce {n} DIFFERENT small source changes (each independent of the other, each a separate patch against the clean worktree) to the library code under /tmp/seed-{pid}/dask_array (not to its tests) such that, for each change:
   1. the package still imports and the EXISTING test suite still passes completely (same passes as without the change - run it to confirm, and say what you ran and the pass counts);
   2. the property above is now violated for some inputs - but only for inputs/situations that need something specific to manifest: an unusual input (particular sign/size/boundary combination, a value landing exactly on a block edge, a rarely-used option), a multi-step sequence of operations, a particular configuration value, or two cooperating sites that each look fine alone. NOT a change that ordinary use or the existing tests would expose at once;
-  3. you provide a demonstration: a small standalone Python program (demo.py) that exits non-zero / fails an assertion WITH the change applied and passes WITHOUT it (compare against NumPy or against the property's own statement).
+  3. you provide a demonstration: a small standalone Python program (demo.py) that exits non-zero / fails an assertion WITH the change applied and passes WITHOUT it (compare against NumPy or against the property's own statement). demo.py must begin with `import os, sys; sys.path.insert(0, os.environ.get('DASK_ARRAY_ROOT', os.getcwd()))` before importing dask_array, so that running `cd <checkout> && /venv/bin/python <path>/demo.py` imports the checkout's package (print dask_array.__file__ to confirm); it must use scheduler='synchronous' and finish in under a minute.
 Prefer realistic mistakes a maintainer could plausibly make (off-by-one at a boundary, wrong comparison operator, a swapped min/max, a missing special case, mishandled negative step, wrong rounding direction, stale variable), located in the code that implements the behaviour the property talks about (read the code to find where that is). Make the changes touch DIFFERENT functions from one another.
 
 Deliver, for each change k = 1..{n}, a directory /tmp/seed-{pid}/out/{pid}-k/ containing: patch.diff (output of `git diff` for that change alone, applicable with `git apply` to a clean checkout), demo.py, and notes.md (which function you changed, why it breaks the property, what specific input/situation is needed to see it, the exact commands you ran and their results: test-suite pass count with the change, demo failing with the change and passing without it). Leave the worktree itself clean at the end (git checkout -- . ; only the out/ directory remains). In your final message list the directories and one line each describing the change.""")
